@@ -20,6 +20,10 @@ PROPS = {
     "C04": P("w1", quick_runs=3000, thorough_runs=200000, quick_budget_s=100, thorough_budget_s=1500, required_probes=["c04.judged"]),
     "C06": P("w1", quick_runs=3000, thorough_runs=200000, quick_budget_s=100, thorough_budget_s=1500, required_probes=["c06.verify"],
              assumptions=["flush-on-ack (default) mode"]),
+    "C25": P("w1", quick_runs=3000, thorough_runs=150000, quick_budget_s=100, thorough_budget_s=1500,
+             required_probes=["c25.produce-while-unhealthy", "c25.fetch-while-unhealthy", "c25.meta-sample"]),
+    "C44": P("w1", quick_runs=3000, thorough_runs=150000, quick_budget_s=100, thorough_budget_s=1500,
+             required_probes=["c44.download-judged", "c44.replica-lagging", "c44.replica-missing"]),
 }
 
 NA = {
